@@ -68,6 +68,7 @@ type sshdObservation struct {
 	Counters map[string]int   `json:"counters"`
 	Panic    string           `json:"panic"`
 	Hang     bool             `json:"hang"`
+	Writes   int              `json:"writes"` // Write calls the event writer received (a fault decision only applies if that write happened)
 }
 
 const sshdReplayTest = `package sshd
@@ -168,6 +169,7 @@ func govcRunOne(in govcIn) map[string]any {
 		events = append(events, e)
 	}
 	obs["events"] = events
+	obs["writes"] = w.n
 	var sent []map[string]any
 	for len(logins) > 0 {
 		l := <-logins
@@ -217,8 +219,24 @@ func replaySshdLine(repo string, in sshdReplayInput) (*sshdObservation, string, 
 }
 
 // replaySshdLines runs several inputs in one test invocation.
+// corpusMemo: the bounded corpus search runs the same inputs for every undecided obligation of a check; the tree does
+// not change during a check, so one run per distinct input list is enough (single inputs are never memoised: they
+// are re-run on purpose, to see whether an observation repeats).
+var corpusMemo = map[string][]sshdObservation{}
+
 func replaySshdLines(repo string, ins []sshdReplayInput) ([]sshdObservation, string, error) {
 	ib, _ := json.Marshal(ins)
+	if obs, ok := corpusMemo[repo+"|"+string(ib)]; ok && len(ins) > 1 {
+		return obs, "(memoised corpus run)", nil
+	}
+	obs, out, err := replaySshdLinesRun(repo, ins, ib)
+	if err == nil && len(ins) > 1 {
+		corpusMemo[repo+"|"+string(ib)] = obs
+	}
+	return obs, out, err
+}
+
+func replaySshdLinesRun(repo string, ins []sshdReplayInput, ib []byte) ([]sshdObservation, string, error) {
 	out, err := runOverlayTest(repo, "processors/sshd", sshdReplayTest, "TestGovcReplaySshd", []string{"GOVC_REPLAY_INPUT=" + string(ib)})
 	for _, l := range strings.Split(out, "\n") {
 		if i := strings.Index(l, "GOVC-OBS "); i >= 0 {
